@@ -67,27 +67,39 @@ func verifRegexMatchAt(atoms []verifAtom, s []byte, i int) int {
 }
 
 func verifRegexFindFrom(pattern string, s []byte, from int) []int {
-	if pattern == "b|abc" {
-		for i := from; i < len(s); i++ {
-			if s[i] == 'a' && i+2 < len(s) && s[i+1] == 'b' && s[i+2] == 'c' {
-				return []int{i, i + 3}
+	// top-level alternation of atom sequences: leftmost start wins, then the longest alternative
+	var alts [][]verifAtom
+	anchoredAll := true
+	start := 0
+	for i := 0; i <= len(pattern); i++ {
+		if i == len(pattern) || pattern[i] == '|' {
+			atoms, anchored, ok := verifRegexAtoms(pattern[start:i])
+			if !ok {
+				panic("regexp model: no model for pattern " + pattern)
 			}
-			if s[i] == 'b' {
-				return []int{i, i + 1}
+			alts = append(alts, atoms)
+			anchoredAll = anchoredAll && anchored
+			if anchored && len(alts) > 1 {
+				panic("regexp model: no model for pattern " + pattern)
 			}
+			start = i + 1
 		}
-		return nil
 	}
-	atoms, anchored, ok := verifRegexAtoms(pattern)
-	if !ok {
+	if len(alts) > 1 && anchoredAll {
 		panic("regexp model: no model for pattern " + pattern)
 	}
 	for i := from; i <= len(s); i++ {
-		if anchored && i > 0 {
+		if anchoredAll && i > 0 {
 			break
 		}
-		if e := verifRegexMatchAt(atoms, s, i); e >= 0 {
-			return []int{i, e}
+		best := -1
+		for _, atoms := range alts {
+			if e := verifRegexMatchAt(atoms, s, i); e > best {
+				best = e
+			}
+		}
+		if best >= 0 {
+			return []int{i, best}
 		}
 	}
 	return nil
